@@ -198,5 +198,5 @@ def VolumeMatrix(
             np.save(outputfile, matrixA_transformation)
         return matrixA_transformation
     if outputfile:
-        np.save(matrixA, outputfile)
+        np.save(outputfile, matrixA)
     return matrixA
